@@ -53,7 +53,7 @@ CHECKS = {
     "C09": dict(
         category="exploration", engine="E1+E5", design_ref="DESIGN.md 3/C09",
         technique="bounded-exhaustive enumeration of meaning-preserving document rewrites at every application site, metamorphic oracle parse(rewrite(d)) == parse(d)",
-        text=("For every G-model model (7.4k quick / 170k thorough) and its default instance, each one-value deviation and the variant serialized under a user default namespace, every single "
+        text=("For every G-model model (<= 2 fields, <= 3 grammar answers: 7.4k models) and its default instance, each one-value deviation and the variant serialized under a user default namespace, every single "
               "application site (thorough: every pair) of 20 rewrites is applied: prefix aliasing, xmlns hoisting and re-declaration, default namespace <-> prefix, attribute reordering, whitespace "
               "in every gap of element-only content, comments / PIs in every gap and inside text, CDATA, character references, UTF-16/Latin-1/BOM re-encoding, surrounding whitespace on non-string "
               "values, XInclude extraction of each child (path and base_url). Both handlers must return an object equal to the one parsed from the original."),
